@@ -8,3 +8,7 @@ if ! /venv/bin/python -c "import hypothesis" 2>/dev/null; then
 fi
 /venv/bin/python -c "import hypothesis, rdflib; print('hypothesis', hypothesis.__version__, 'rdflib', rdflib.__version__)"
 mkdir -p evidence replays
+# atheris (coverage-guided supplement of C04/C06/C07) goes to /verif/.deps (git-ignored), not into /venv
+if ! /venv/bin/python -c "import sys; sys.path.append('$PWD/.deps'); import atheris" 2>/dev/null; then
+  /venv/bin/pip install --no-index --find-links /opt/veriftools/wheels --target "$PWD/.deps" atheris || echo "atheris not installed: the coverage-guided supplement will be skipped"
+fi
